@@ -1,6 +1,6 @@
 //! spec -> impl: execute cases / behaviours emitted by TLC.
 use serde_json::Value;
-use sos_verif_harness::{account_world, crash_world, crypto_world, leak_world, server_world, eventlog_world, sync_world, summary::Summary, tree_world};
+use sos_verif_harness::{account_world, codec_world, crash_world, crypto_world, leak_world, server_world, upload_world, eventlog_world, sync_world, summary::Summary, tree_world};
 use std::io::BufRead;
 
 fn read_lines(path: &str) -> Vec<Value> {
@@ -169,6 +169,44 @@ fn main() {
                         eprintln!("harness error: {e:?}");
                         std::process::exit(3);
                     }
+                }
+            });
+        }
+        "codec-catalog" => {
+            println!("{}", codec_world::catalog());
+            return;
+        }
+        "codec" => {
+            // replay codec <cases.ndjson> <scratch>
+            let scratch = std::path::PathBuf::from(&args[3]);
+            sos_verif_harness::init_audit(&scratch);
+            let cases = read_lines(&args[2]);
+            let rt = tokio::runtime::Builder::new_multi_thread()
+                .worker_threads(2)
+                .enable_all()
+                .build()
+                .unwrap();
+            rt.block_on(async {
+                if let Err(e) = codec_world::run_cases(&cases, &scratch, &mut out).await {
+                    eprintln!("harness error: {e:?}");
+                    std::process::exit(3);
+                }
+            });
+        }
+        "upload" => {
+            // replay upload <cases.ndjson> <scratch>
+            let scratch = std::path::PathBuf::from(&args[3]);
+            sos_verif_harness::init_audit(&scratch);
+            let cases = read_lines(&args[2]);
+            let rt = tokio::runtime::Builder::new_multi_thread()
+                .worker_threads(3)
+                .enable_all()
+                .build()
+                .unwrap();
+            rt.block_on(async {
+                if let Err(e) = upload_world::run_cases(&cases, &scratch, &mut out, &known).await {
+                    eprintln!("harness error: {e:?}");
+                    std::process::exit(3);
                 }
             });
         }
